@@ -1,5 +1,8 @@
 """C18 - streams are consumed incrementally and documents delivered as they complete."""
+import codecs
+import gc
 import math
+import weakref
 
 from hypothesis import strategies as st
 
@@ -199,14 +202,21 @@ def eval_case(case):
         cl.add("malformed:%s" % bad[1])
         if bad_index > 0:
             cl.add("malformed-after-good-documents")
-    cl.add("bytes-stream" if as_bytes else "text-stream")
+    encoding = "utf-8" if as_bytes is True else (as_bytes or None)
+    cl.add("bytes-stream" if encoding else "text-stream")
+    if encoding and encoding != "utf-8":
+        cl.add("bytes-stream:utf-16")
     if nbare:
         cl.add("bare-document-after-explicit-end")
     if any(k < 4096 for k in schedule):
         cl.add("short-reads")
 
     def enc(s):
-        return s.encode("utf-8") if as_bytes else s
+        if not encoding:
+            return s
+        if encoding == "utf-8":
+            return s.encode("utf-8")
+        return (codecs.BOM_UTF16_LE if encoding == "utf-16-le" else codecs.BOM_UTF16_BE) + s.encode(encoding)
     data1 = enc(text + tail)
     data4 = enc(text + tail * 4)
     ends_u = [len(enc(text[:e])) for e in ends]
@@ -285,6 +295,39 @@ def eval_case(case):
         del gen
         if spy.reads != reads:
             failures.append(Failure("read-after-close:%s:load" % bname, "read() after close()"))
+        # abandoning releases the loader: dispose() exists to break the loader's reference cycles, so after close() the
+        # loader object is freed at once (checked with the cyclic collector switched off), after 0, 1 or several items
+        for level in ("scan", "parse", "compose", "load"):
+            for k in sorted({0, 1, max(1, ngood // 2)}):
+                evals += 1
+                refs = []
+                base = SL if level == "load" else L
+
+                def _init(self, stream, _r=refs, _B=base):
+                    _B.__init__(self, stream)
+                    _r.append(weakref.ref(self))
+                RefL = type("RefLoader", (base,), {"__init__": _init})
+                was = gc.isenabled()
+                gc.disable()
+                try:
+                    gen3 = level_iter(yaml, level, RefL, SpyStream(data1, schedule))
+                    try:
+                        for _ in range(k):
+                            next(gen3)
+                    except (StopIteration, yaml.YAMLError):
+                        pass
+                    close3 = getattr(gen3, "close", None)
+                    if close3:
+                        close3()
+                    del gen3
+                    alive = [r for r in refs if r() is not None]
+                finally:
+                    if was:
+                        gc.enable()
+                if alive:
+                    failures.append(Failure("abandoned-iteration-keeps-loader-alive:%s:%s" % (bname, level),
+                                            "after %d items and close() the loader object is still alive (reference cycle not broken by dispose())\nencoding=%r" % (k, encoding)))
+                    break
         # abandoning the iteration before asking for the first item: nothing may be held or read on behalf of it
         for level in ("scan", "parse", "compose", "load"):
             evals += 1
@@ -318,7 +361,7 @@ def cases():
     bad = st.one_of(st.none(), st.none(), st.tuples(st.integers(0, 20), st.sampled_from(sorted(BAD))))
     schedule = st.one_of(st.just([4096]), st.just([4096]), st.just([65536]), st.lists(st.sampled_from([1, 7, 64, 1000, 4095, 4096, 4097, 16384, 20000]), min_size=1, max_size=8))
     return st.tuples(st.lists(spec, min_size=1, max_size=10), bad, st.sampled_from(["docs", "comments"]), st.sampled_from([0, 1, 3, 8, 20]),
-                     st.booleans(), schedule, st.booleans())
+                     st.booleans(), schedule, st.sampled_from([False, False, False, True, True, "utf-16-le", "utf-16-be"]))
 
 
 def arms(tier):
@@ -326,4 +369,4 @@ def arms(tier):
 
 
 REQUIRED_CLASSES = ["stream>=3-blocks-and-docs>=2", "malformed-after-good-documents", "doc:explicit-end", "doc:long-quoted", "short-reads",
-                    "bytes-stream", "text-stream", "malformed:scanner-at-start", "bare-document-after-explicit-end"]
+                    "bytes-stream", "bytes-stream:utf-16", "text-stream", "malformed:scanner-at-start", "bare-document-after-explicit-end"]
